@@ -34,12 +34,17 @@ func (e *engine) newFnCtx(fn *ssa.Function, blk *block, name string) *fnCtx {
 
 // verifyFunc generates the obligations of one function under contract.
 func (e *engine) verifyFunc(fn *ssa.Function, blk *block) (res *fnResult) {
+	return e.verifyFuncWith(fn, blk, nil)
+}
+
+func (e *engine) verifyFuncWith(fn *ssa.Function, blk *block, alias map[string]string) (res *fnResult) {
 	name := canonName(fn)
 	if blk != nil && baseFuncName(blk.name) == name {
 		name = blk.name // "f#view": a further contract block for the same function
 	}
 	res = &fnResult{name: name}
 	fc := e.newFnCtx(fn, blk, name)
+	fc.alias = alias
 	defer func() {
 		if r := recover(); r != nil {
 			if u, ok := r.(unsupported); ok {
